@@ -271,8 +271,14 @@ pub fn invoke(ctx: &Ctx, cli: &str, c: &CliCase, dir: &str) -> Result<RunOut, St
     let outdir = format!("{}/{}", dir, OUT_DIR);
     let outfile = format!("{}/{}", dir, OUT_FILE);
     if c.preexisting {
-        // a previous, larger result at the same path(s): it must be replaced, not partly overwritten
-        let junk = vec![b'X'; 96 * 1024];
+        // a previous result at the same path(s): it must be replaced, not kept or partly overwritten. Either a
+        // larger file, or (every second seeded case) one of exactly the length the new pickle will have but with
+        // other content; a batch directory also holds files that do not belong to this run
+        let same_len = c.seed.map_or(false, |s| s % 2 == 1).then(|| c.reference().and_then(|r| r.run().ok()).map(|o| o.len())).flatten();
+        let junk = match same_len {
+            Some(n) if n > 0 => vec![b'X'; n],
+            _ => vec![b'X'; 96 * 1024],
+        };
         match &c.mode {
             Mode::Single => std::fs::write(&outfile, &junk).map_err(|e| e.to_string())?,
             Mode::Batch { samples, fault_at } => {
@@ -282,6 +288,10 @@ pub fn invoke(ctx: &Ctx, cli: &str, c: &CliCase, dir: &str) -> Result<RunOut, St
                         std::fs::write(format!("{}/{}.pkl", outdir, i), &junk).map_err(|e| e.to_string())?;
                     }
                 }
+                // leftovers of an earlier, larger run and a file that is no sample at all
+                std::fs::write(format!("{}/{}.pkl", outdir, samples + 3), b"N.").map_err(|e| e.to_string())?;
+                std::fs::write(format!("{}/hand_written.pkl", outdir), b"N.").map_err(|e| e.to_string())?;
+                std::fs::write(format!("{}/README.txt", outdir), b"corpus").map_err(|e| e.to_string())?;
             }
         }
     }
@@ -394,7 +404,7 @@ pub fn invoke(ctx: &Ctx, cli: &str, c: &CliCase, dir: &str) -> Result<RunOut, St
             }
             // a switch that is off: one of the spellings the script does not list as true (its `case` has
             // exactly true|TRUE|True|1|yes|YES|Yes), chosen by the case's seed
-            let falsy = ["false", "", "False", "FALSE", "0", "no", "off", "none", "None", "n", "disabled", "10", "tru", "nyes"];
+            let falsy = ["false", "", "False", "FALSE", "0", "no", "off", "none", "None", "n", "disabled", "10", "tru", "nyes", "false ", " false", "false\n", "false\r", "0 "];
             let pick = (c.seed.unwrap_or(0) as usize).wrapping_add(c.rayon_threads as usize);
             let nth = std::cell::Cell::new(0usize);
             let flag = |on: bool| {
@@ -478,6 +488,16 @@ pub fn check_cli(ctx: &Ctx, cli: &str, c: &CliCase, idx: usize, st: &mut Stats) 
                 let mut want: Vec<String> = (0..*samples).map(|i| format!("{}.pkl", i)).collect();
                 if let Some(k) = fault_at {
                     want.push(format!("{}.pkl", k));
+                }
+                if c.preexisting {
+                    // files of the directory that do not belong to this run stay where and what they are
+                    for (f, content) in [(format!("{}.pkl", samples + 3), &b"N."[..]), ("hand_written.pkl".to_string(), &b"N."[..]), ("README.txt".to_string(), &b"corpus"[..])] {
+                        let got = std::fs::read(format!("{}/{}/{}", dir, OUT_DIR, f)).unwrap_or_default();
+                        if got != content {
+                            return Err(Fail::new(format!("{}:batch:foreign-file-touched", via), format!("{}: {} in the output directory does not belong to this run but was changed or removed", c.brief(), f)));
+                        }
+                        want.push(f);
+                    }
                 }
                 want.sort();
                 want.dedup();
@@ -826,6 +846,22 @@ pub fn run_c13(ctx: &Ctx) -> Outcome {
             out.inconclusive = Some(e);
         }
         Ok(parent) => {
+            {
+                let mut st = Stats::default();
+                let r = check_python_seed_probe(ctx, &parent, &mut st);
+                out.stats.merge(st);
+                match r {
+                    Ok(()) => {}
+                    Err(f) if f.sig.starts_with("harness:") => {
+                        out.inconclusive = Some(f.msg);
+                        return out;
+                    }
+                    Err(f) => {
+                        out.violation = Some(Violation { fail: f, case: json!({"py_seed_probe": true}) });
+                        return out;
+                    }
+                }
+            }
             let seqs: Vec<PySeq> = materialise(&pyseq_strategy(), ctx.seed, 133, ctx.n(2000, 30000) as usize);
             match run_python(ctx, &parent, &seqs) {
                 Err(e) => out.inconclusive = Some(e),
@@ -1150,4 +1186,47 @@ pub fn replay_py_mem(ctx: &Ctx, c: &PyMemCase) -> Result<(), Fail> {
     let pkg = build_python(ctx).map_err(|e| Fail::new("harness:build", e))?;
     let mut st = Stats::default();
     check_py_mem(ctx, &pkg, c, &mut st)
+}
+
+/// Seeds the Python constructors may be handed: out of the u64 range, negative, not an int. The binding may
+/// refuse them; if it accepts one, two generators built with it must agree (a seed that is silently dropped
+/// leaves an OS-seeded generator).
+pub fn check_python_seed_probe(ctx: &Ctx, pkg_parent: &str, st: &mut Stats) -> Result<(), Fail> {
+    let exprs = ["2**64", "2**64+5", "2**200", "-1", "-2**63-1", "-2**63", "42.0", "'42'", "True", "2**63", "2**64-1", "0", "b'7'", "[7]"];
+    let mut seqs = vec![];
+    for (i, e) in exprs.iter().enumerate() {
+        for mutator in [false, true] {
+            seqs.push(json!({"cls": "SeedProbe", "protocol": (i % 6) as u8, "seed_expr": e, "mutator": mutator}));
+        }
+    }
+    let path = format!("{}/work/pyseed-{}.json", ctx.verif_dir, std::process::id());
+    std::fs::write(&path, serde_json::to_string(&seqs).unwrap()).map_err(|e| Fail::new("harness:pyseed", e.to_string()))?;
+    let py = std::env::var("VERIF_PYTHON_VT").unwrap_or_else(|_| "python3-vt".to_string());
+    let out = Command::new(&py).arg(format!("{}/py/pydriver.py", ctx.verif_dir)).arg(pkg_parent).arg(&path).output();
+    let _ = std::fs::remove_file(&path);
+    let out = out.map_err(|e| Fail::new("harness:pyseed", e.to_string()))?;
+    if !out.status.success() {
+        return Err(Fail::new("harness:pyseed", format!("pydriver failed: {}", String::from_utf8_lossy(&out.stderr).chars().rev().take(300).collect::<String>().chars().rev().collect::<String>())));
+    }
+    let res: Vec<Vec<String>> = serde_json::from_slice(&out.stdout).map_err(|e| Fail::new("harness:pyseed", e.to_string()))?;
+    for (q, r) in seqs.iter().zip(res.iter()) {
+        st.evaluations += 1;
+        let (a, b) = (r.first().cloned().unwrap_or_default(), r.get(1).cloned().unwrap_or_default());
+        if a.starts_with("ERR:") && b.starts_with("ERR:") {
+            st.label("python: unusual seed refused");
+            continue;
+        }
+        if a != b {
+            return ctx.fail(
+                st,
+                Fail::new(
+                    "python:seed-accepted-but-not-used",
+                    format!("Python {}(protocol={}, seed={}) was accepted, but two generators built that way return different pickles ({} vs {} bytes): the seed is not in effect", if q["mutator"] == true { "PickleMutator" } else { "Generator" }, q["protocol"], q["seed_expr"], a.len() / 2, b.len() / 2),
+                ),
+            );
+        }
+        st.label("python: unusual seed accepted and deterministic");
+        st.nontrivial(util::digest_str(&format!("{}{}", q["seed_expr"], q["mutator"])));
+    }
+    Ok(())
 }
